@@ -178,7 +178,7 @@ pub fn run(tier: Tier) {
         if all_pairs {
             "batch_inverse_or_zero on every ordered pair (a,b) of residues (zeros included) and on every triple over {0,1,2,6144,12288}"
         } else {
-            "batch_inverse_or_zero on every pair (a,b) with a any residue and b in {0,1,2,6144,12288}, both orders, and every triple over {0,1,2,6144,12288}"
+            "batch_inverse_or_zero on every pair (a,b) with a any residue and b in {0,1,2,6144,12288}, both orders, and every triple over {0,1,2,6144,12288}; product-structured batches ([a, 1/a], [a, 0, 1/a], [3, a, 1/(3a)], ... for every a; every length-5 batch over {0,1,2,1/2,-1,3,1/3}; production-length batches with total product 1)"
         },
     );
     let small = [0u32, 1, 2, 6144, 12288];
@@ -221,6 +221,65 @@ pub fn run(tier: Tier) {
             }
         }
     }
+    // products: the running product passes through 1, q-1 and back; zeros in between
+    let mut extra = 0u64;
+    let inv3 = inv[3] as u32;
+    let pres: Vec<Vec<Found>> = (1..Q32)
+        .into_par_iter()
+        .map(|a| {
+            let ai = inv[a as usize] as u32;
+            let a3i = inv[(3 * a as i64 % Q) as usize] as u32;
+            let mut f = vec![];
+            for v in [vec![a, ai], vec![a, ai, 5], vec![5, a, ai], vec![a, 0, ai], vec![0, a, ai, 0], vec![3, a, a3i], vec![a, 3, a3i, 7], vec![a, ai, a, ai], vec![a, Q32 - 1, ai, Q32 - 1]] {
+                if let Some(w) = check_batch(&inv, &v) {
+                    if f.len() < 2 {
+                        f.push(found(format!("felt_batch_inv:product:{}", v.len()), w, json!({"kind":"batch","v":v})));
+                    }
+                }
+            }
+            f
+        })
+        .collect();
+    extra += 9 * (Q32 as u64 - 1);
+    for f in pres.into_iter().flatten() {
+        ctx.violation(f.key, f.what, f.case);
+    }
+    let alpha = [0u32, 1, 2, 6145, 12288, 3, inv3];
+    let total = alpha.len().pow(5);
+    let sres: Vec<Found> = (0..total)
+        .into_par_iter()
+        .filter_map(|mut idx| {
+            let mut v = vec![];
+            for _ in 0..5 {
+                v.push(alpha[idx % alpha.len()]);
+                idx /= alpha.len();
+            }
+            check_batch(&inv, &v).map(|w| found("felt_batch_inv:alphabet-5".to_string(), w, json!({"kind":"batch","v":v})))
+        })
+        .collect();
+    extra += total as u64;
+    for f in sres.into_iter().take(3) {
+        ctx.violation(f.key, f.what, f.case);
+    }
+    // production-length batches whose total product is 1, with and without zeros
+    for n in [512usize, 1024] {
+        for zeros in [0usize, 1, 7] {
+            let mut v: Vec<u32> = (0..n).map(|i| 1 + ((i as u32).wrapping_mul(2654435761u32) >> 8) % (Q32 - 1)).collect();
+            for z in 0..zeros {
+                v[(z * 73 + 5) % (n - 1)] = 0;
+            }
+            let prod = v[..n - 1].iter().filter(|&&x| x != 0).fold(1i64, |acc, &x| acc * x as i64 % Q);
+            v[n - 1] = inv[prod as usize] as u32;
+            extra += 1;
+            if let Some(w) = check_batch(&inv, &v) {
+                ctx.violation(format!("felt_batch_inv:product-one:n={}", n), format!("a batch of {} entries with {} zeros whose non-zero entries multiply to 1: {}", n, zeros, &w[..w.len().min(200)]), json!({"kind":"batch","v":v}));
+            }
+        }
+    }
+    part.states += extra;
+    part.transitions += extra;
+    part.validated += extra;
+    part.set("product_structured_batches", json!(extra));
     part.exhaustive = all_pairs;
     part.outcome(format!("batch([0,2,0])={:?}", fh::felt_batch_inv(&[0, 2, 0])));
     part.outcome(format!("batch([12288,6144])={:?}", fh::felt_batch_inv(&[12288, 6144])));
